@@ -1,6 +1,6 @@
 SPECIFICATION Spec
 CONSTANTS
-  MaxLen = 5
+  MaxLen = 6
   MinLen = 3
   Impl = "fixed"
 INVARIANTS Isolation Counts Prefix Emit
